@@ -180,6 +180,9 @@ struct Client<'a> {
     twin: Option<Twin>,
     moves_on: bool,
     aftermath: Option<Aftermath>,
+    /// a Display impl kept writing fragments after one of them had failed: from then on the bytes
+    /// the stream saw (and what it made of them) are the client's doing
+    client_wrote_after_error: bool,
 }
 
 impl Client<'_> {
@@ -432,10 +435,15 @@ impl Client<'_> {
                     }
                 } else {
                     self.st.probe("display_kept_writing_after_error");
+                    self.client_wrote_after_error = true;
                 }
                 // (only when the failed record ends on a character boundary: a stream left inside a
                 // multi-byte character treats the next byte as part of it - C01's subject)
-                if self.moves_on && self.aftermath.is_none() && !fmt_keeps_going(op) && is_char_boundary(&self.t.input, c_before + buf.len()) {
+                // ... and only when what has been delivered so far ends on a character boundary: an
+                // implementation whose state is exactly "the bytes delivered" would otherwise sit
+                // inside a character, too)
+                let delivered_whole_chars = std::str::from_utf8(&self.h.st().accepted).is_ok();
+                if self.moves_on && self.aftermath.is_none() && !fmt_keeps_going(op) && is_char_boundary(&self.t.input, c_before + buf.len()) && delivered_whole_chars {
                     // error aftermath: the client logs the failure and carries on with the next
                     // record on the same stream.  CAN abandons whatever sequence the stream was
                     // left in (where exactly it stopped inside the failed record is unspecified)
@@ -596,6 +604,7 @@ pub fn execute(t: &Trace, stats: &mut Stats, record: bool) -> Outcome {
         twin: if t.param("twin_stream") == Some(1) { Some(Twin { stream: anstream::StripStream::new(Vec::new()), fed: 0, steps: 0 }) } else { None },
         moves_on: t.param("moves_on_after_failed_record") == Some(1) && std::str::from_utf8(&t.input).is_ok(),
         aftermath: None,
+        client_wrote_after_error: false,
     };
     client.hash.str(&t.surface);
     if t.faults.is_empty() {
@@ -687,7 +696,7 @@ pub fn execute(t: &Trace, stats: &mut Stats, record: bool) -> Outcome {
             violation = tv;
         }
     }
-    if violation.is_none() && !control_after_incomplete_char(&t.input) {
+    if violation.is_none() && !control_after_incomplete_char(&t.input) && !client.client_wrote_after_error {
         // absolute, model-free: whatever the input and the faults, no ESC, DEL or non-whitespace C0
         // byte may reach the inner writer (the differential oracles above cannot see a leak that
         // the one-shot stripper shares)
